@@ -1,0 +1,145 @@
+//go:build verif
+
+// Package verifhooks exposes internal parts of the schema compiler to the verification harness
+// (build tag `verif`); internal/lang cannot be imported from outside the module.
+package verifhooks
+
+import (
+	"fmt"
+	"strings"
+
+	"github.com/basecomplextech/spec/internal/lang"
+	"github.com/basecomplextech/spec/internal/lang/parser"
+	"github.com/basecomplextech/spec/internal/lang/syntax"
+)
+
+// ScanTokens returns the lexer's token stream and the number of scanner errors.
+func ScanTokens(src string) ([]string, int) { return parser.VerifScanTokens(src) }
+
+// Generate runs the compiler and the generator like `spec generate -i imports... src dst`.
+func Generate(src, dst string, imports []string, skipRPC bool) error {
+	return lang.New(imports, skipRPC).Generate(src, dst)
+}
+
+// ParseDump parses src and returns a canonical s-expression of the syntax tree, or the error.
+func ParseDump(src string) (string, error) {
+	f, err := parser.New().Parse(src)
+	if err != nil {
+		return "", err
+	}
+	return DumpFile(f), nil
+}
+
+func q(s string) string { return fmt.Sprintf("%q", s) }
+
+// DumpFile renders a syntax tree canonically.
+func DumpFile(f *syntax.File) string {
+	var sb strings.Builder
+	sb.WriteString("(file (imports")
+	for _, im := range f.Imports {
+		fmt.Fprintf(&sb, " (import %s %s)", q(im.Alias), q(im.ID))
+	}
+	sb.WriteString(") (options")
+	for _, o := range f.Options {
+		fmt.Fprintf(&sb, " (opt %s %s)", o.Name, q(o.Value))
+	}
+	sb.WriteString(") (defs")
+	for _, d := range f.Definitions {
+		sb.WriteString(" ")
+		dumpDef(&sb, d)
+	}
+	sb.WriteString("))")
+	return sb.String()
+}
+
+func dumpType(sb *strings.Builder, t *syntax.Type) {
+	if t == nil {
+		sb.WriteString("nil")
+		return
+	}
+	if t.Kind == syntax.KindList {
+		sb.WriteString("(list ")
+		dumpType(sb, t.Element)
+		sb.WriteString(")")
+		return
+	}
+	fmt.Fprintf(sb, "(t %s %s %s)", t.Kind.String(), t.Name, q(t.Import))
+}
+
+func dumpFields(sb *strings.Builder, fs syntax.Fields) {
+	for _, f := range fs {
+		fmt.Fprintf(sb, " (field %s ", f.Name)
+		dumpType(sb, f.Type)
+		fmt.Fprintf(sb, " %d)", f.Tag)
+	}
+}
+
+func dumpDef(sb *strings.Builder, d *syntax.Definition) {
+	switch d.Type {
+	case syntax.DefinitionEnum:
+		fmt.Fprintf(sb, "(enum %s", d.Name)
+		for _, v := range d.Enum.Values {
+			fmt.Fprintf(sb, " (val %s %d)", v.Name, v.Value)
+		}
+		sb.WriteString(")")
+	case syntax.DefinitionMessage:
+		fmt.Fprintf(sb, "(message %s", d.Name)
+		dumpFields(sb, d.Message.Fields)
+		sb.WriteString(")")
+	case syntax.DefinitionStruct:
+		fmt.Fprintf(sb, "(struct %s", d.Name)
+		for _, f := range d.Struct.Fields {
+			fmt.Fprintf(sb, " (sfield %s ", f.Name)
+			dumpType(sb, f.Type)
+			sb.WriteString(")")
+		}
+		sb.WriteString(")")
+	case syntax.DefinitionService:
+		kind := "service"
+		if d.Service.Sub {
+			kind = "subservice"
+		}
+		fmt.Fprintf(sb, "(%s %s", kind, d.Name)
+		for _, m := range d.Service.Methods {
+			fmt.Fprintf(sb, " (method %s ", m.Name)
+			switch in := m.Input.(type) {
+			case *syntax.Type:
+				sb.WriteString("(in-type ")
+				dumpType(sb, in)
+				sb.WriteString(")")
+			case syntax.Fields:
+				sb.WriteString("(in-fields")
+				dumpFields(sb, in)
+				sb.WriteString(")")
+			default:
+				sb.WriteString("(in-none)")
+			}
+			sb.WriteString(" ")
+			switch out := m.Output.(type) {
+			case *syntax.Type:
+				sb.WriteString("(out-type ")
+				dumpType(sb, out)
+				sb.WriteString(")")
+			case syntax.Fields:
+				sb.WriteString("(out-fields")
+				dumpFields(sb, out)
+				sb.WriteString(")")
+			default:
+				sb.WriteString("(out-none)")
+			}
+			if m.Channel != nil {
+				sb.WriteString(" (chan ")
+				dumpType(sb, m.Channel.In)
+				sb.WriteString(" ")
+				dumpType(sb, m.Channel.Out)
+				sb.WriteString(")")
+			} else {
+				sb.WriteString(" (chan-none)")
+			}
+			fmt.Fprintf(sb, " %v)", m.Oneway)
+		}
+		sb.WriteString(")")
+	default:
+		sb.WriteString("(unknown-def)")
+	}
+}
